@@ -86,6 +86,11 @@ CHECKS = {
             "interleaving signatures observed. Held = all observed histories satisfy the checker.",
             "No explicit-state model (second clause of the quantifier) - not decidable by this technique; no externally killed workers; wall-clock only as watchdog (inconclusive) "
             "except a 60 s no-progress bound for termination.", "4/C12"),
+    "C19": ("decision-table oracle on real run_file_generators / PCDeployerJob.parse_result / pc_diff executions over all listing orders and reload modes",
+            "Sets of Entire generators (distinct prios incl. 0 and negative, shared paths, safe flags, reload strings) are run in every listing order; the planned content per "
+            "path must come from the highest priority; the deploy job is parsed for entire_reload yes/no/force and its upload set, uploaded bytes, reload attachments and the shown "
+            "file diff are compared with the decision table of the statement.",
+            "UnifiedFileDiffer set as the device file differ; PC hardware. Two known findings (splitlines-based decision).", "4/C19"),
     "C20": ("fresh-process differential monitor + deep snapshot invariants (inputs, compiled rulebook signature) around every call in job sequences",
             "Jobs from the fixture corpus (with the hardware families of the same vendor), hand-written pairs for the rule-mutating logics and ACL variants are executed inside "
             "random sequences in one process (as a pool worker does) and, each, alone in a fresh interpreter; canonical results (diff, command paths, ordered config) must be "
